@@ -94,6 +94,8 @@ def runHist (fl : Flags) (b : Block) : Res :=
         { h with memo := ro.memo, count := ro.count,
                  conform := h.conform.or (ro.conform.map (fun m => s!"op{h.ops}_{m}")),
                  c06 := h.c06.or (get "C06"),
+                 -- values returned by executions of earlier operations (memoised run-once results) are legitimate origins
+                 c01 := h.c01.or (c01check sc fx'.supplied ex h.execs),
                  c13 := h.c13.or (get "C13"),
                  c11 := h.c11.or c11d,
                  -- C15: a function assembled with BuildFunc behaves like an ordinary function of its signature — the
@@ -117,10 +119,13 @@ def runHist (fl : Flags) (b : Block) : Res :=
   let c11 := st.c11.or <| onceIds.findSome? (fun fid =>
     let n := (st.execs.filter (fun e => e.fid == fid)).length
     if n > 1 then some s!"run-once_function_f{fid}_executed_{n}_times" else none)
+  -- a wrapper assembled over the target's own value sets was called before the history: it must not panic
+  let wrapV := ((field b "wrap").getD []).headD "none"
+  let st := { st with c06 := st.c06.or (if wrapV = "panic" then some "BuildFunc_over_the_targets_own_value_sets_panicked_when_called" else none) }
   let nOnceUsed := (onceIds.filter (fun fid => st.execs.any (fun e => e.fid == fid))).length
   { conform := st.conform, propNA := true,
     props := [("C09", verdictStr st.c09), ("C11", verdictStr c11), ("C06", verdictStr st.c06), ("C04", verdictStr st.c04),
-              ("C13", verdictStr st.c13), ("C17", verdictStr (st.c17.or st.c11)), ("C15", verdictStr st.c15)],
+              ("C13", verdictStr st.c13), ("C17", verdictStr (st.c17.or st.c11)), ("C15", verdictStr st.c15), ("C01", verdictStr st.c01)],
     stats := [s!"ops={st.ops}", s!"execs={st.execs.length}", s!"once={onceIds.length}", s!"onceused={nOnceUsed}",
               s!"convs={fx.convs.length}", s!"outcome=hist"] }
 
@@ -173,8 +178,16 @@ def runRace (b : Block) : Res :=
     if !seq.isEmpty ∧ seq.all (fun o => o == "err:e0") ∧ got.any (fun o => o.startsWith "ok:") then
       some "call_succeeded_although_a_converter_it_needs_failed"
     else none
+  -- C01: an execution that received values supplied by two different concurrent calls
+  let mixed := natOf ((((field b "mixed").getD []).headD "0"))
+  let raceIn := fun (frag : String) => raceL.head? = some "yes" ∧ (((raceL.getD 1 "").splitOn frag).length > 1)
+  let c01 : Option String :=
+    if mixed > 0 then some s!"{mixed}_executions_received_values_of_two_different_concurrent_calls"
+    else if raceIn "Redefine.func" then some s!"data_race_while_a_redefined_function_assembles_the_arguments_of_its_call:{raceL.getD 1 "?"}"
+    else none
+  let c12 := c12.or c01
   { conform := none, propNA := true,
-    props := [("C12", verdictStr c12), ("C11", verdictStr c11), ("C06", verdictStr c06), ("C04", verdictStr c04)],
+    props := [("C12", verdictStr c12), ("C11", verdictStr c11), ("C06", verdictStr c06), ("C04", verdictStr c04), ("C01", verdictStr c01)],
     stats := [s!"execs={(once.map (·.2)).foldl (· + ·) 0 + 1}", s!"once={once.length}", s!"outcome=race", s!"convs={once.length}"] }
 
 end ArgMapper.Driver
